@@ -175,12 +175,14 @@ func (c *Ctx) RunDocs(fams []string, fn DocFn) {
 				n = 5000000
 			}
 			workload.W3(n, c.Seed, sink)
+			workload.W11(n/8, c.Seed, sink)
 		case "W3small":
 			n := 100000
 			if c.Thorough() {
 				n = 1500000
 			}
 			workload.W3(n, c.Seed, sink)
+			workload.W11(n/8, c.Seed, sink)
 		case "W4":
 			if c.Thorough() {
 				workload.W4Thorough(sink)
